@@ -442,6 +442,10 @@ func runC15(r *run) {
 							r.violate(violation{What: "the bridge does not emit exactly when the logger admits the bridge's severity", Input: desc, Expected: fmt.Sprint(admitted), Actual: fmt.Sprint(len(evs) > 0)})
 						}
 					}
+					if gate := lg.l.Enabled(slog.Level(bl)); gate != (len(evs) > 0) {
+						r.violate(violation{What: "the bridge does not emit exactly when the logger's own gate admits the bridge's severity (asked right after the message)",
+							Input: map[string]any{"format": format, "logger_level": L, "bridge_severity": bl, "debug_mode": is.DebugMode(), "message_number_through_this_bridge": k + 1}, Expected: fmt.Sprint(gate), Actual: fmt.Sprint(len(evs) > 0)})
+					}
 					if L == 7 && len(evs) > 0 {
 						r.violate(violation{What: "a bridge on a logger at Off emitted a record: the logger admits no severity", Input: desc, Actual: obs})
 					}
